@@ -1931,6 +1931,10 @@ def nf_simplify(n):
             return ("ifelse", base[1], nf_simplify(("field", base[2], n[2])), nf_simplify(("field", base[3], n[2])))
     if n and n[0] == "payload" and n[1] in ("Some", "Ok") and isinstance(n[2], tuple) and n[2][0] == "call" and n[2][1] == n[1] and len(n[2][2]) == 1:
         return n[2][2][0]      # the payload of a literal `Some(x)` is x
+    if n and n[0] == "payload" and n[1] == "Some" and isinstance(n[2], tuple) and n[2][0] == "ifelse":
+        ov = _opt_view(n[2])
+        if ov is not None and ov[0] is not True:
+            return ov[1]       # `cond.then(|| x)` / `if cond { Some(x) } else { None }`: where it is Some, it holds x
     return n
 
 
@@ -2338,6 +2342,10 @@ def decision(cond, branch):
     c = cond
     while isinstance(c, tuple) and c[0] == "not":
         c, branch = c[1], not branch
+    if isinstance(c, tuple) and c[0] == "islet" and c[1].rsplit("::", 1)[-1].startswith("Some(") and isinstance(c[2], tuple) and c[2][0] == "ifelse":
+        ov = _opt_view(c[2])
+        if ov is not None and ov[0] is not True:
+            return decision(ov[0], branch)      # `if let Some(x) = cond.then(..)` is `if cond`
     if isinstance(c, tuple) and c[0] == "islet":
         lab = c[1].rsplit("::", 1)[-1]
         if lab.startswith("Some("):
